@@ -65,6 +65,11 @@ func newCompressionPool(
 	newDecompressor func() Decompressor,
 	newCompressor func() Compressor,
 ) *compressionPool {
+	if newDecompressor == nil || newCompressor == nil {
+		// WithCompression and WithAcceptCompression document nil constructors
+		// as a no-op: the options skip a nil pool.
+		return nil
+	}
 	return &compressionPool{
 		decompressors: sync.Pool{
 			New: func() any { return newDecompressor() },
